@@ -21,6 +21,7 @@ class Packages:
         self.suffix = "_%d_%d" % (os.getpid(), _COUNTER[0])
         self.real = {}        # logical -> real name
         self.types = {}       # real name -> tuple of model types, or None
+        self.imports = {}     # real name -> tuple of real names its component imports
 
     def name(self, logical):
         return "vzp" + self.suffix + "_" + logical
@@ -44,6 +45,7 @@ class Packages:
                 f.write(content)
         self.real[logical] = real
         self.types[real] = tuple(types)
+        self.imports[real] = tuple(imports)
         return real
 
     def add_package_without_component(self, logical):
